@@ -11,19 +11,40 @@ from xmc.evidence import Violation
 PROP = "C10"
 
 
+def inc_node_side(H):
+    """The incidence relation as the *nodes* report it (memberships / dimemberships)."""
+    if type(H).__name__ == "DiHypergraph":
+        s = set()
+        for n in H.nodes:
+            i, o = H.nodes.dimemberships(n)
+            # a node's out-memberships are the edges whose tail holds it, its in-memberships those whose head holds it
+            s |= {(n, e, "tail") for e in o} | {(n, e, "head") for e in i}
+        return s
+    return {(n, e) for n in H.nodes for e in H.nodes.memberships(n)}
+
+
 def inc(H):
+    """The incidence relation of a network, read from the edge side; if the node side reports a different relation the
+    difference is made part of the value, so that no comparison with a consistent network can succeed."""
     if type(H).__name__ == "DiHypergraph":
         s = set()
         for e, (t, h) in H.edges.dimembers(dtype=dict).items():
             s |= {(n, e, "tail") for n in t} | {(n, e, "head") for n in h}
-        return s
-    return {(n, e) for e, m in H.edges.members(dtype=dict).items() for n in m}
+    else:
+        s = {(n, e) for e, m in H.edges.members(dtype=dict).items() for n in m}
+    try:
+        ns = inc_node_side(H)
+    except Exception as e:  # noqa: BLE001
+        ns = {("node side unreadable", type(e).__name__)}
+    if ns != s:
+        return s | {("NODE-SIDE-DISAGREES", repr(sorted(ns ^ s, key=repr)))}
+    return s
 
 
 def full(H):
     s = C.snapshot(H)
     return {"cls": s["cls"], "nodes": set(s["nodes"]), "edges": set(s["edges"]), "members": s["members"],
-            "nattr": s["nattr"], "eattr": s["eattr"], "net": s["net"]}
+            "nattr": s["nattr"], "eattr": s["eattr"], "net": s["net"], "incidences(both sides)": inc(H)}
 
 
 def decorate(spec, mode):
@@ -110,7 +131,7 @@ def rt_undirected(H, spec):
     def _b5():
         G, nd, ed = xgi.to_bipartite_graph(H, index=True)
         H2 = xgi.from_bipartite_graph(G)
-        got = {(nd[n], ed[e]) for n, e in inc(H2)}
+        got = {(nd[t[0]], ed[t[1]]) if t[0] != "NODE-SIDE-DISAGREES" else t for t in inc(H2)}
         if got != I0:
             bad("bipartite-graph", f"bipartite graph round trip: {sorted(got, key=repr)} != {sorted(I0, key=repr)}")
         if {nd[n] for n in H2.nodes} != set(H.nodes):
@@ -208,7 +229,7 @@ def rt_directed(D, spec):
             bad("bipartite-edgelist", "to_bipartite_edgelist directions do not match tail/head")
     G, nd, ed = xgi.to_bipartite_graph(D, index=True)
     D2 = xgi.from_bipartite_graph(G)
-    got = {(nd[n], ed[e], d) for n, e, d in inc(D2)}
+    got = {(nd[t[0]], ed[t[1]], t[2]) if t[0] != "NODE-SIDE-DISAGREES" else t for t in inc(D2)}
     if got != I0:
         bad("bipartite-graph", f"directed bipartite graph round trip: {sorted(got, key=repr)} != {sorted(I0, key=repr)}")
     D2 = xgi.from_hif_dict(xgi.to_hif_dict(D))
